@@ -39,7 +39,7 @@
 (*                         the transmitters' one, which has no "Tx ID property" (base.py:445)  *)
 (*   InputTypeSetterMLFEM  MovingLoopGroundFEMSurvey.default_input_types reads a name-mangled  *)
 (*                         attribute that does not exist (ground_fem.py:31-34)                 *)
-(*   UnitSetterTIP         TipperSurvey.default_units: same mistake (tipper.py:178-183)        *)
+(*   UnitSetterTIP         TipperSurvey.default_units: same mistake (tipper.py:167-172)        *)
 (*   LoopRadiusNoneHalfApplied  moving-loop classes list "Loop radius" as a mandatory key, so  *)
 (*                         loop_radius = None is rejected (KeyError, base.py:425-433) - but    *)
 (*                         only after edit_em_metadata deleted the key from the live           *)
@@ -82,22 +82,15 @@ Grouped    == Pair \in {"LLTEM", "LLFEM", "DC"}
 LargeLoop  == Pair \in {"LLTEM", "LLFEM"}
 IsTEM      == Pair \in {"ATEM", "MLTEM", "LLTEM"}
 Tipper     == Pair \in {"TIP", "TIP1"}
-Airborne   == Pair \in {"ATEM", "AFEM", "TIP", "TIP1"}      \* TipperSurvey(FEMSurvey, AirborneEMSurvey): tipper.py:32
+Airborne   == Pair \in {"ATEM", "AFEM", "TIP", "TIP1"}      \* TipperSurvey(FEMSurvey, AirborneEMSurvey): tipper.py:35
 MovingLoop == Pair \in {"MLTEM", "MLFEM"}
 PointsOnly == Pair = "MT"                             \* MTReceivers(FEMSurvey, Points)
 
 DefUnit == IF IsTEM THEN "Milliseconds (ms)" ELSE "Hertz (Hz)"          \* default_metadata of each class
-UnitVals == IF IsTEM THEN {"Seconds (s)", "Microseconds (us)"}           \* base.py:936-962
-            ELSE {"KiloHertz (kHz)", "Gigahertz (GHz)"}
 DefInput == CASE Pair \in {"ATEM", "AFEM"} -> "Rx"
               [] Pair \in {"MLTEM", "MLFEM", "LLTEM", "LLFEM"} -> "Tx and Rx"
               [] Tipper -> "Rx and base stations"
               [] OTHER -> "Rx only"
-InputVals == CASE Pair \in {"ATEM", "AFEM"} -> {"Tx", "Tx and Rx"}       \* base.py:804
-               [] MovingLoop -> {"Rx"}                                    \* base.py:607
-               [] LargeLoop -> {"Tx and Rx"}                              \* base.py:635
-               [] Pair = "TIP" -> {"Rx and base stations"}                \* tipper.py:37
-               [] OTHER -> {"Rx only"}                                    \* magnetotellurics.py:37
 SurveyType == CASE Pair = "ATEM" -> "Airborne TEM" [] Pair = "AFEM" -> "Airborne FEM"
                 [] Pair = "MLTEM" -> "Ground TEM" [] Pair = "MLFEM" -> "Ground FEM"
                 [] Pair = "LLTEM" -> "Ground TEM (large-loop)" [] Pair = "LLFEM" -> "Ground FEM (large-loop)"
@@ -137,7 +130,9 @@ DefPar == [f \in Fields |->
                [] f = "Loop radius" -> IF MovingLoop THEN "r0" ELSE "absent"      \* ground_tem.py:42, ground_fem.py:45
                [] OTHER -> "absent"]
 
-\* accepted values of each setter, most informative first (ValuesPerOp takes a prefix)
+\* accepted values of each setter, most informative first (ValuesPerOp takes a prefix).
+\* units: base.py:936-962 ; input types: base.py:804 (airborne), 607 (moving loop), 635 (large loop), tipper.py:40,
+\* magnetotellurics.py:35
 ValSeq(op) ==
     CASE op = "channels" -> <<"c1", "c2">>
       [] op = "unit" -> IF IsTEM THEN <<"Seconds (s)", "Microseconds (us)">> ELSE <<"KiloHertz (kHz)", "Gigahertz (GHz)">>
@@ -204,7 +199,7 @@ NoMeta == [has |-> FALSE, pa |-> 0, pb |-> 0, tx |-> 0, par |-> DefPar]
 OwnMeta(i, role) == SetP([has |-> TRUE, pa |-> 0, pb |-> 0, tx |-> 0, par |-> DefPar], role, i)   \* base.py:394-398
 
 \* the partner getter: cached pointer, else the entity recorded in the live metadata if it is an entity of the
-\* partner class in the same workspace (base.py:451-464, 484-500; tipper.py:57-74; direct_current.py:266-279, 347-360)
+\* partner class in the same workspace (base.py:451-464, 484-500; tipper.py:57-74; direct_current.py:271-284, 352-365)
 Resolve(E, i) ==
     LET m == E[i].live
         p == PKey(m, Other(E[i].role))
@@ -246,7 +241,7 @@ Init == /\ ents = InitEnts
 \*   EM: s.receivers = o / s.transmitters = o / s.base_stations = o  (base.py:466-474, 502-515; tipper.py:76-94):
 \*       the setter caches o, records o's uid in s's metadata, stores it, then hands the *same* dictionary to o and
 \*       stores it there too (base.py:442-449): o's own parameters are replaced by s's.
-\*   DC: both get {"Current Electrodes", "Potential Electrodes"} (direct_current.py:281-305, 362-386).
+\*   DC: both get {"Current Electrodes", "Potential Electrodes"} (direct_current.py:286-305, 367-386).
 LinkRes(E, s, dev) ==
     LET o  == 3 - s
         m0 == IF Family = "dc" THEN SetP(SetP([NoMeta EXCEPT !.has = TRUE], E[s].role, s), E[o].role, o)
